@@ -82,7 +82,7 @@ func TestC16(t *testing.T) {
 	}
 	expired := func() bool { return run.Expired() || time.Since(t0) > limit }
 
-	acc := enum.NewAcc(run, "every sealing configuration in the bound (blocks listed under 'alphabet': recipient keys x grant lists x per-grant share count x key index list {every subset of the recipients, plus the duplicate list 0,0} x threshold 0-3 x total-share override {0,1,2,3,5}) is sealed by the real BuildEnvelope; every accepted one is unsealed with every subset of the recipients' private keys, with and without one unrelated key, and compared with a combinatorial share-distribution model; a case is one configuration or one (configuration, offered key set); all are distinct by construction; an unseal case is non-trivial when at least one key is offered; payload and context come from a fixed menu selected by a hash of the configuration")
+	acc := enum.NewAcc(run, "every sealing configuration in the bound (blocks listed under 'alphabet': recipient keys x grant lists x per-grant share count x key index list {every subset of the recipients, plus the duplicate list 0,0} x threshold 0-3 x total-share override {0,1,2,3,5} x recipient lists with distinct keys and with a key named more than once) is sealed by the real BuildEnvelope; every accepted one is unsealed with every subset of the recipients' private keys, with and without one unrelated key, and compared with a combinatorial share-distribution model; a case is one configuration or one (configuration, offered key set); all are distinct by construction; an unseal case is non-trivial when at least one key is offered; payload and context come from a fixed menu selected by a hash of the configuration")
 
 	keys := enum.Keys(4) // k1..k3 recipients, k4 unrelated
 	unrelated := keys[3]
@@ -123,8 +123,32 @@ func TestC16(t *testing.T) {
 		vmu.Unlock()
 	}
 
-	one := func(c ref.EnvConfig) {
+	// aliases: which fixture key each recipient position holds (identity, and
+	// recipient lists naming the same key more than once)
+	aliases := func(n int) [][]int {
+		switch n {
+		case 2:
+			return [][]int{{0, 1}, {0, 0}}
+		case 3:
+			return [][]int{{0, 1, 2}, {0, 1, 0}, {0, 0, 0}}
+		}
+		id := make([]int, n)
+		for i := range id {
+			id[i] = i
+		}
+		return [][]int{id}
+	}
+	one := func(c ref.EnvConfig, alias []int) {
 		ck := c.Key()
+		repeated := false
+		for i, a := range alias {
+			if a != i {
+				repeated = true
+			}
+		}
+		if repeated {
+			ck += fmt.Sprintf("/recipient-keys=%v", alias)
+		}
 		h := fnv.New32a()
 		h.Write([]byte(ck))
 		hv := h.Sum32()
@@ -132,7 +156,11 @@ func TestC16(t *testing.T) {
 		ctx := ctxMenu[(hv/7)%uint32(len(ctxMenu))]
 		pubs := make([]crypto.PubKey, c.NKeys)
 		for i := range pubs {
-			pubs[i] = keys[i].Pub
+			if i < len(alias) {
+				pubs[i] = keys[alias[i]].Pub
+			} else {
+				pubs[i] = keys[i].Pub
+			}
 		}
 		var env *envelope.Envelope
 		var berr error
@@ -161,17 +189,38 @@ func TestC16(t *testing.T) {
 		}
 		need := c.Threshold + 1
 		for mask := uint(0); mask < 1<<uint(c.NKeys+1); mask++ {
+			// mask selects fixture keys (identities); a position is reachable when
+			// the key it holds is offered
 			var privs []crypto.PrivKey
+			skip := false
+			var posMask uint
 			for i := 0; i < c.NKeys; i++ {
 				if mask&(1<<uint(i)) != 0 {
+					held := false
+					for _, a := range alias {
+						if a == i {
+							held = true
+						}
+					}
+					if !held {
+						skip = true // this key holds no recipient position under the alias
+					}
 					privs = append(privs, keys[i].Priv)
+				}
+			}
+			if skip {
+				continue
+			}
+			for pos, a := range alias {
+				if mask&(1<<uint(a)) != 0 {
+					posMask |= 1 << uint(pos)
 				}
 			}
 			if mask&(1<<uint(c.NKeys)) != 0 {
 				privs = append(privs, unrelated.Priv)
 			}
 			uk := fmt.Sprintf("%s/keys=%b", ck, mask)
-			wantGrants, wantShares := c.Reach(mask & c.AllKeys())
+			wantGrants, wantShares := c.Reach(posMask & c.AllKeys())
 			wantOpen := wantShares >= int(need)
 			var got []byte
 			var res *envelope.EnvelopeUnlockResult
@@ -226,8 +275,15 @@ func TestC16(t *testing.T) {
 				}
 				c := layouts[i]
 				c.Threshold, c.Total = th, tot
-				one(c)
-				done.Add(1)
+				als := aliases(c.NKeys)
+				if !c.InRange() || (run.Quick() && tot != 0) {
+					// quick tier: repeated recipient keys only without a total-share override
+					als = als[:1]
+				}
+				for _, al := range als {
+					one(c, al)
+					done.Add(1)
+				}
 			}
 		}
 	})
@@ -249,13 +305,25 @@ func TestC16(t *testing.T) {
 	acc.Sample(map[string]any{"config": ex.Key(), "meaning": "2 recipients, threshold 1 (2 shares needed), no override, grant0 = 1 share for key0, grant1 = 2 shares for key0 or key1", "offered_keys": "k2 only", "model_grants": g, "model_shares": n, "model_opens": true})
 	acc.Sample(map[string]any{"first": layouts[0].Key(), "last_in_range": layouts[nInRange-1].Key(), "last": layouts[len(layouts)-1].Key()})
 	acc.Finish()
-	run.Cov["configurations_planned"] = len(layouts) * len(thresholds) * len(totals)
+	planned := 0
+	for _, l := range layouts {
+		n := len(aliases(l.NKeys))
+		if !l.InRange() {
+			n = 1
+		}
+		if run.Quick() {
+			planned += (n + len(totals) - 1) * len(thresholds)
+		} else {
+			planned += n * len(thresholds) * len(totals)
+		}
+	}
+	run.Cov["configurations_planned"] = planned
 	run.Cov["configurations_done"] = done.Load()
 	var blocks []string
 	for _, sp := range spaces {
 		blocks = append(blocks, sp.String())
 	}
-	run.Cov["alphabet"] = map[string]any{"blocks": blocks, "threshold": thresholds, "total_shares": totals, "key_index_lists": "every subset of the recipients (ascending) and the list 0,0", "offered": "every subset of recipients x {with, without} one unrelated key", "extra": "18 configurations with an out-of-range key index"}
+	run.Cov["alphabet"] = map[string]any{"blocks": blocks, "threshold": thresholds, "total_shares": totals, "key_index_lists": "every subset of the recipients (ascending) and the list 0,0", "offered": "every subset of recipients x {with, without} one unrelated key", "recipient_keys": "distinct; [A,A]; [A,B,A]; [A,A,A]", "extra": "18 configurations with an out-of-range key index"}
 	run.Assumptions = append(run.Assumptions,
 		"the share-distribution model in harness/ref/envelope_model.go (sequential hand-out, distinct share ids, grant reachable iff a listed key is offered) is what doc/ENVELOPE.md and envelope.proto describe",
 		"BuildEnvelope is given a deterministic stream, but circl's Ristretto255 group ignores the reader and draws the secret from crypto/rand: share values differ from run to run and are never compared; payload/context come from a fixed menu; configurations outside the bound are not covered")
